@@ -12,5 +12,5 @@ def run(ctx):
     corpus = []
     for r in RUNS:
         r["ticks"] = tuple(r["ticks"])
-    kprops.kernel_check(ctx, "C11", runs=RUNS, preds=['C11', 'C11c', 'C08p', 'C05'], corpus=corpus, extra_checks=[clones.check_clone_clocks],
+    kprops.kernel_check(ctx, "C11", runs=RUNS, preds=['C11', 'C11c', 'C11v', 'C08p', 'C05'], corpus=corpus, extra_checks=[clones.check_clone_clocks],
                         rule="random kernel programs with 'if elapsed op T' / 'if recurred op N' transitions (timeout/repeat are exactly these with op >=), T on multiples of the tick and decimal values, binary-exact and decimal tick periods; the framer's elapsed (bit exact, binary64) and recurred after EVERY send are compared with the Coq model; implementation-only statement: after every run of a scheduled framer recurred = completed iterations since the outline last changed (incl. forced re-entry) and elapsed = store stamp minus the stamp of that change. Non-trivial = outline change and > 6 events")
